@@ -106,11 +106,12 @@ SPEC = {
           ("TlsProof", "C11_wss_first", "C11_wss_first", "TLS wrap precedes the handshake write, directly and after a tunnel"),
           ("TlsProof", "C11_sweep", "C11_sweep", None)]),
  "C13": dict(title="C13 — WebSocketApp delivers every event to its callback exactly once, in order.",
-   imports="Base.Res Base.Bytes Spec.Frame Spec.Legal Spec.AppTrace Gen.GenAbnf Model.Recv Model.Conn Model.App Proofs.RecvSpec Proofs.ConnSpec Proofs.ConnProof Proofs.RecvProof Proofs.AppProof",
+   imports="Base.Res Base.Bytes Spec.Frame Spec.Legal Spec.AppTrace Gen.GenAbnf Model.Recv Model.Conn Model.App Proofs.RecvSpec Proofs.ConnSpec Proofs.ConnProof Proofs.RecvProof Proofs.AppProof Gen.GenApp Proofs.AppGen",
    items=[("AppProof", "C13_trace", "C13_trace", "on one connection the callbacks are: on_open, then for every item of the RFC-level reading of the frames (whole messages, pings, pongs) its callbacks once each, in arrival order; a raising callback is reported to on_error and delivery continues"),
           ("AppProof", "C13_trace_all", "C13_trace_all", None),
           ("AppProof", "C13_open_first", "C13_open_first", "on_open / on_reconnect is the first callback of every established connection"),
           ("AppProof", "C13_open_first_run", "C13_open_first_run", None),
+          ("AppGen", "deliver_gen", "C13_routing_is_the_code", "CODE TIE: the routing of a received frame to on_ping / on_pong / on_data+on_message / teardown is the opcode chain regenerated from read() in run_forever (Gen/GenApp.v); text is decoded exactly when the regenerated test says so"),
           ("RecvProof", "recv_frame_call", "C13_no_hidden_bytes", "promptness, structural part: after every frame returned the parser holds no bytes (fb' = fb_init in call_post), so a complete frame is never left undelivered inside the library while the loop blocks in select")]),
  "C14": dict(title="C14 — run_forever always terminates; on_close fires once, last, with the close reason.",
    imports="Base.Res Base.Bytes Spec.Frame Spec.Legal Spec.AppTrace Gen.GenAbnf Gen.GenApp Model.Recv Model.Conn Model.App Proofs.RecvSpec Proofs.ConnSpec Proofs.ConnProof Proofs.AppProof Proofs.AppGen",
